@@ -24,6 +24,28 @@ fn draw(t: &TextD, font: &MonoFont<'_>) -> (PixMap, Point) {
     })
 }
 
+/// The same text with a character style whose public fields were assigned one by one on a style
+/// that was constructed for a different font and colour (the fields of `MonoTextStyle` are public;
+/// seeded `C15-17`: a character advance cached by the builder goes stale when `font` is assigned).
+fn draw_field_assigned(t: &TextD, font: &MonoFont<'_>) -> (PixMap, Point, embedded_graphics::primitives::Rectangle) {
+    use egmon::target::Col;
+    use embedded_graphics::mono_font::{ascii, MonoTextStyle};
+    t.with_text::<C, _>(font, |text| {
+        let other: &MonoFont<'static> = if font.character_size.width == 10 { &ascii::FONT_4X6 } else { &ascii::FONT_10X20 };
+        let mut st = MonoTextStyle::new(other, C::nth(6));
+        st.font = text.character_style.font;
+        st.text_color = text.character_style.text_color;
+        st.background_color = text.character_style.background_color;
+        st.underline_color = text.character_style.underline_color;
+        st.strikethrough_color = text.character_style.strikethrough_color;
+        let mut t2 = text.clone();
+        t2.character_style = st;
+        let mut tg = IterTarget::<C>::new(unbounded_box());
+        let next = t2.draw(&mut tg).unwrap();
+        (tg.log.map, next, t2.bounding_box())
+    })
+}
+
 fn draw_onto(t: &TextD, font: &MonoFont<'_>, tg: &mut IterTarget<C>) -> Point {
     t.with_text::<C, _>(font, |text| text.draw(tg).unwrap())
 }
@@ -69,6 +91,15 @@ fn check(ctx: &mut Ctx, t: &TextD, font: &MonoFont<'_>, rng: &mut Rng) {
     {
         ctx.eval();
         let (whole, next) = draw(t, font);
+        {
+            // a style assembled by assigning the public fields renders the same text
+            let (m2, n2, bb2) = draw_field_assigned(t, font);
+            let bb = t.with_text::<C, _>(font, |text| text.bounding_box());
+            if !m2.same(&whole) || n2 != next || bb2 != bb {
+                ctx.violation(format!("field-assigned-style-differs|{}", fc), || desc(t), || format!("style built with MonoTextStyle::new(other font) and assigned fields: returned {:?} (constructed style: {:?}), bounding box {:?} (constructed: {:?}), first differing pixel {:?}", n2, next, bb2, bb, m2.first_diff(&whole)));
+            }
+            ctx.count("texts_also_drawn_with_a_field_assigned_style", 1);
+        }
         let mut boxes: Vec<embedded_graphics::primitives::Rectangle> = vec![egmon::target::rect(t.at.0 - 3, t.at.1 - 400, 7, 5), egmon::target::rect(t.at.0, t.at.1, 0, 0)];
         if let Some(cut) = egmon::target::cut_boxes(&whole) {
             boxes.extend(cut);
